@@ -7,6 +7,7 @@
 """
 List field
 """
+import copy
 import inspect
 from typing import Any, Iterable, List, Optional, Type, Union
 
@@ -165,10 +166,10 @@ class ListField(Field):
 
         default = self.default
         if isinstance(default, list):
+            # deep copy: configurations must not share (nested) mutable default state
+            default = copy.deepcopy(default)
             if self.field:
                 default = ListProxy(cfg, self, default)
-            else:
-                default = list(default)
         cfg._set_default_value(self._key, default)
 
     def _validate(self, cfg: Config, value: list) -> Union[list, ListProxy]:
